@@ -653,12 +653,13 @@ def zero_preserving(t, covs):
     return False
 
 
-def guarded_alternatives(ctx, b, an, val):
+def guarded_alternatives(ctx, b, an, val, pt=None):
     """a stored value that is a join of values chosen by a test (`if cov == 255 { a } else { b }`): [(alternative term,
-    comparison facts holding where it is defined)]; [(val, [])] for anything else"""
+    comparison facts holding where it is defined)]; for anything else the value with the facts holding where it is
+    stored (pt), so that a store made on one branch of such a test is read the same way"""
     v = strip_all(val)
     if v[0] != 'phi' or not (2 <= len(v[2]) <= 4):
-        return [(val, [])]
+        return [(val, list(normalized_guards(ctx, b, pt[0])) if pt is not None else [])]
     out = []
     for i in v[2]:
         d = an.defs[i]
@@ -716,7 +717,7 @@ def r02_7(ctx):
             # coverage reads: the current elements of the u8 slices (every parameter but src and dst)
             cval = canon(val)
             covs = set(x for x in subterms(cval) if x[0] == 'elem' and x not in (dst_e, src_e))
-            for alt, _g in guarded_alternatives(ctx, b, an, val):
+            for alt, _g in guarded_alternatives(ctx, b, an, val, pt):
                 covs |= set(x for x in subterms(canon(alt)) if x[0] == 'elem' and x not in (dst_e, src_e))
             gs = list(normalized_guards(ctx, b, pt[0]))
             # elements that an .filter(pred) adaptor lets through satisfy pred
@@ -732,7 +733,7 @@ def r02_7(ctx):
                         if x in covs:
                             guarded.add(x)
             ok = True
-            for alt, alt_gs in guarded_alternatives(ctx, b, an, val):
+            for alt, alt_gs in guarded_alternatives(ctx, b, an, val, pt):
                 v = strip_all(canon(alt))
                 acovs = set(x for x in subterms(v) if x[0] == 'elem' and x not in (dst_e, src_e)) or covs
                 aguarded = set(guarded)
@@ -761,7 +762,7 @@ def r02_7(ctx):
                                 cov_in_w.add(x)
                     zp = all(zero_preserving(w, cov_in_w) for w in weights)
                     okv = first_is_old and (zp or cov_in_w <= aguarded) and bool(cov_in_w)
-                elif covs and covs <= aguarded and len(guarded_alternatives(ctx, b, an, val)) > 1:
+                elif (covs or True) and (covs | set(('elem', k5) for k5 in range(2, b.argc))) <= aguarded:
                     okv = True      # this alternative is only taken when every coverage byte is non-zero
                 ok = ok and okv
             ctx.check(ok, R, key + '|zero coverage is identity', b.loc(), 'zero coverage keeps the old pixel',
@@ -1064,8 +1065,8 @@ def r03_4(ctx):
                 continue
             def is_interp(v):
                 return v[0] == 'call' and isinstance(v[1], str) and v[1] in ZERO_ID and strip_all(v[2][0]) == dst_e and is_blend(v[2][1])
-            alts = guarded_alternatives(ctx, b, an, val)
-            if len(alts) > 1:
+            alts = guarded_alternatives(ctx, b, an, val, pt)
+            if len(alts) >= 1 and not is_interp(v):
                 # a value chosen by a test of the coverage: every alternative is the interpolation, or — where the
                 # coverage is known to be full — the blend result itself (R03.8 decides that this is exact)
                 vs = [(strip_all(canon(a)), g) for a, g in alts]
@@ -1073,6 +1074,10 @@ def r03_4(ctx):
                 interp = [x for x, g in vs if is_interp(x)]
                 if okalts and len(interp) >= 1:
                     v = interp[0]
+                elif okalts and old == dst_e and len(canon.positions) <= 1:
+                    # this store is the full-coverage branch on its own (the interpolating store is another statement)
+                    ctx.ok(R, key + '|roles (full-coverage store)', b.loc(), '*dst = T::blend(*src, *dst) under coverage == 255')
+                    continue
             ok = old == dst_e and is_interp(v) and len(canon.positions) <= 1
             ctx.check(ok, R, key + '|roles', b.loc(), '*dst = interp(*dst, T::blend(*src, *dst), coverage...)',
                       'the row proc stores %s: expected the interpolation from the old pixel (first) to T::blend(source, old pixel) (second), all read from the same pixel position' % fmt(b, strip_all(val)))
@@ -1583,6 +1588,135 @@ def r06_2(ctx):
     ctx.check(ok, R, 'draw_target::DrawTarget::push_layer|delegates', b2.loc(), 'push_layer(o) = push_layer_with_blend(o, SrcOver)', 'push_layer does not delegate as push_layer_with_blend(opacity, SrcOver)')
 
 
+def uniform_memo(ctx, b, an, mask_arg, cblock):
+    """The coverage mask handed to composite is a *memoised* `vec![v; n]`: a Vec<u8> field F is taken out, re-filled with
+    `clear(); resize(n, v)` unless it already has length n and carries v, lent to composite, and put back.  Returns
+    (v, n) when the memo lemma holds, else None:
+      * the only stores to F anywhere are `Vec::new()` in constructors, the take, and the put-back of the same vector;
+        the vector is only mutated by that clear/resize pair and otherwise only read — so F is always empty or uniformly
+        the value it was last filled with (the tag: its first element, or a tag field written with the fill);
+      * every path from the take to composite passes the fill, or both equality edges `len == n` and `tag == v`:
+        a uniform vector of length n whose tag is v is vec![v; n]."""
+    cfg = an.cfg
+    locs = set(x[1] for x in subterms(mask_arg) if x[0] == 'mem')
+    locs = [l for l in locs if b.local_ty(l).startswith('std::vec::Vec<u8')]
+    if len(locs) != 1:
+        return None
+    L = locs[0]
+    ML = ('mem', L)
+    def on_L(ct):
+        return bool(ct[2]) and strip_all(ct[2][0]) in (ML, ('ref', ML), ('deref', ML))
+    take = [(bi, ct) for bi, d, ct in calls_in(ctx, b) if d and (d.endswith('mem::take') or d.endswith('mem::replace')) and b.blocks[bi]['t'].get('dest', {}).get('l') == L and not b.blocks[bi]['t']['dest']['pr']]
+    if len(take) != 1:
+        return None
+    tb, tct = take[0]
+    fa = strip_all(tct[2][0])
+    if not (fa[0] == 'field' and fa[3] == 'raqote::draw_target::DrawTarget' and strip_all(fa[1]) in (('param', 1), ('deref', ('param', 1)))):
+        return None
+    F = fa[2]
+    clears, resizes = [], []
+    for bi, d, ct in calls_in(ctx, b):
+        if not d or not any(x == ML for a in ct[2] for x in subterms(a)):
+            continue
+        last = d.split('::')[-1]
+        if last == 'clear' and on_L(ct):
+            clears.append(bi)
+        elif last == 'resize' and on_L(ct) and len(ct[2]) == 3:
+            resizes.append((bi, ct))
+        elif last in ('len', 'deref', 'first', 'is_empty', 'as_slice', 'index', 'get', 'eq', 'ne', 'composite', 'as_ref', 'borrow', 'last'):
+            tys = b.blocks[bi]['t'].get('arg_tys') or []
+            if any(t.startswith('&mut std::vec::Vec') for t in tys):
+                return None
+        else:
+            return None
+    if len(clears) != 1 or len(resizes) != 1:
+        return None
+    cb, (rb, rct) = clears[0], resizes[0]
+    if not (cfg.dominates(cb, rb) and b.blocks[cb]['t'].get('t') == rb):
+        return None
+    n_t, v_t = rct[2][1], rct[2][2]
+    def same_v(t):
+        t = strip_all(t)
+        while t[0] in ('ref', 'deref'):
+            t = strip_all(t[1])
+        return nosite(t) == nosite(strip_all(v_t))
+    tests = {'len': [], 'tag': []}
+    tag_field = None
+    for si, t in b.terminators('switch'):
+        if si not in cfg.reach or t.get('ty') != 'bool':
+            continue
+        c = strip_all(an.term_at(si, len(b.blocks[si]['st']), t['o']))
+        false_t = [tt for v, tt in t['targets'] if v == '0']
+        if not false_t:
+            continue
+        tt, ft = t['otherwise'], false_t[0]
+        kind = eq_when_true = None
+        if c[0] == 'bin' and c[1] in ('Ne', 'Eq'):
+            x, y = strip_all(c[2]), strip_all(c[3])
+            for p, q in ((x, y), (y, x)):
+                if is_call(p, '::len') and on_L(p) and poly(q) == poly(n_t):
+                    kind = 'len'
+                pf = strip_casts(p, ('IntToInt',))
+                if pf[0] == 'field' and pf[3] == 'raqote::draw_target::DrawTarget' and b_is_u8(ctx, pf[2]) and same_v(q):
+                    kind = 'tag'
+                    tag_field = pf[2]
+            eq_when_true = c[1] == 'Eq'
+        elif c[0] == 'call' and isinstance(c[1], str) and c[1].split('::')[-1] in ('ne', 'eq') and len(c[2]) == 2:
+            x, y = strip_all(c[2][0]), strip_all(c[2][1])
+            for p, q in ((x, y), (y, x)):
+                while p[0] in ('ref', 'deref'):
+                    p = strip_all(p[1])
+                while q[0] in ('ref', 'deref'):
+                    q = strip_all(q[1])
+                if is_call(p, '::first') and any(z == ML for z in subterms(p)) and q[0] == 'agg' and q[3] == 'Some' and same_v(q[4][0][1]):
+                    kind = 'tag'
+            eq_when_true = c[1].split('::')[-1] == 'eq'
+        if kind:
+            tests[kind].append((si, tt if eq_when_true else ft, ft if eq_when_true else tt))
+    if len(tests['len']) != 1 or len(tests['tag']) != 1:
+        return None
+    for si, eq_t, neq_t in tests['len'] + tests['tag']:
+        if cfg.can_reach(neq_t, [cblock], removed=[rb]) or cfg.can_reach(tb, [cblock], removed=[rb, si]):
+            return None
+    # who else touches F (and the tag field)?
+    tag_stores = set()
+    for q2, b2 in ctx.F.bodies.items():
+        for bi, k2, st in b2.statements():
+            if st['k'] != 'assign':
+                continue
+            for fld in (F, tag_field):
+                if fld is None:
+                    continue
+                hit = [e for e in (st['p'].get('pr') or []) if e.get('k') == 'field' and e.get('n') == fld and (e.get('adt') or '').endswith('draw_target::DrawTarget')]
+                rv = st['rv']
+                refd = rv.get('k') in ('ref', 'rawptr') and rv.get('mut') and any(e.get('k') == 'field' and e.get('n') == fld and (e.get('adt') or '').endswith('draw_target::DrawTarget') for e in (rv['p'].get('pr') or []))
+                if not hit and not refd:
+                    continue
+                if q2 == b.q:
+                    a2 = ctx.an(b)
+                    if fld == F and hit and nosite(strip_all(a2.rvalue_term(bi, k2, rv))) == nosite(ML):
+                        continue        # the put-back
+                    if fld == F and refd and bi == tb:
+                        continue        # the borrow handed to mem::take
+                    if fld == tag_field and hit and cfg.dominates(rb, bi) and same_v(a2.rvalue_term(bi, k2, rv)):
+                        tag_stores.add(bi)
+                        continue        # the tag written with the fill
+                return None
+    if tag_field is not None:
+        # every fill records its value in the tag before the vector is used
+        if not tag_stores or cfg.can_reach(rb, [cblock], removed=list(tag_stores - {rb})) and not (rb in tag_stores):
+            return None
+    return v_t, n_t
+
+
+def b_is_u8(ctx, field):
+    a = ctx.F.adts.get('raqote::draw_target::DrawTarget')
+    for f in (a or {}).get('variants', [{}])[0].get('fields', []):
+        if f.get('name') == field:
+            return f.get('ty') == 'u8'
+    return False
+
+
 def r06_3(ctx):
     """pop_layer composites the popped layer once"""
     R = 'R06.3'
@@ -1635,6 +1769,13 @@ def r06_3(ctx):
     if okm:
         mv = shared.resolve_mem(an, m[4][0][1])
         okm = is_call(mv, 'vec::from_elem')
+        if not okm:
+            memo = uniform_memo(ctx, b, an, m[4][0][1], cbi)
+            if memo is not None:
+                # a memoised vec![v; n]: judged as the vector it stands for
+                mv = ('call', 'alloc::vec::from_elem', (memo[0], memo[1]), cbi)
+                okm = True
+                ctx.note('R06.3: the opacity mask is a memoised vec![v; n] held in a DrawTarget field (memo lemma verified)')
         if okm:
             byte = strip_casts(mv[2][0], ('IntToInt',))
             okm = byte[0] == 'cast' and byte[1] == 'FloatToInt' and any(lf(x, 'opacity') for x in subterms(byte))
@@ -1791,7 +1932,7 @@ def r03_8(ctx):
                     return all(cov_or_product(a) for a in t[2])
                 return False
             ok = True
-            for alt, alt_gs in guarded_alternatives(ctx, b, an, val):
+            for alt, alt_gs in guarded_alternatives(ctx, b, an, val, pt):
                 v = strip_all(canon(alt))
                 okv = False
                 if is_call(v, 'sw_composite::lerp') and len(v[2]) == 3:
